@@ -104,8 +104,11 @@ HOSTILE_ATOMS = ["²", "①", "१२", "1e999", "-", "1_0", "0x1F", "٣.٥", "1
 
 
 def escape_probe_texts() -> list[str]:
-    """documents that drive hostile atoms into every conversion the holographic / constraint readers perform"""
+    """documents that drive hostile atoms into every conversion the holographic / constraint readers perform, and
+    malformed envelope markers whose names are letters / digits only to Unicode-aware tests"""
     out = []
+    for name in ("Café", "ДОКУМЕНТ", "文档", "NOTE²", "_ß", "ÁB", "x١", "Ⅻ", "a-b", "9a", "", "A B", "A@B"):
+        out += [f"==={name}===\nK::1\n===END===\n", f"===D===\nK::==={name}===\n===END===\n", f"===D===\n==={name}===\n"]
     for a in HOSTILE_ATOMS:
         q = a.replace("\\", "\\\\").replace('"', '\\"')
         for body in (f"K::[{a}∧REQ]", f'K::["x"∧REGEX["{q}"]]', f'K::["x"∧REQ∧REGEX["{q}"]→§SELF]', f"K::[1∧RANGE[{a},5]]", f"K::[1∧RANGE[0,{a}]]", f'K::["x"∧MAX_LENGTH[{a}]]', f'K::["x"∧MIN_LENGTH[{a}]]', f"K::[[1,{a}]∧REQ]", f"K::[{a}∧TYPE[NUMBER]]", f'K::["x"∧CONST[{a}]]', f'K::["x"∧ENUM[{a},b]]', f'K::["x"∧DATE∧{a}]', f"META:\n  K::[{a}∧REQ]"):
